@@ -40,16 +40,30 @@ def gen_rs(rng):
     return c
 
 
-def gen_nn(rng, typ):
-    n = rng.choice([1, 2, 2, 3])
-    m = rng.randrange(6, 13)
+def gen_nn(rng, typ, family=None, n=None):
+    n = n or rng.choice([1, 2, 2, 3])
+    m = rng.randrange(6, 13) if n < 4 else rng.randrange(9, 14)
     x = points(rng, m, n)
     ny = rng.choice([1, 1, 2])
     y = [[Fr(rng.randrange(-40, 41), 4) for _ in range(ny)] for _ in range(m)]
     qs = [x[rng.randrange(m)] for _ in range(2)] + \
          [[Fr(rng.randrange(-130, 131), 32) for _ in range(n)] for _ in range(2)]
-    return {'kind': 'nn', 'type': typ, 'x': [[pj(v) for v in r] for r in x], 'y': [[pj(v) for v in r] for r in y],
-            'queries': [[pj(v) for v in p] for p in qs]}
+    return {'kind': 'nn', 'type': typ, 'family': family, 'x': [[pj(v) for v in r] for r in x],
+            'y': [[pj(v) for v in r] for r in y], 'queries': [[pj(v) for v in p] for p in qs]}
+
+
+def gen_krig_cache(rng, scenario):
+    c = gen_krig(rng)
+    c['kind'], c['scenario'] = 'krigcache', scenario
+    d = gen_krig(rng) if scenario == 'other-x' else c
+    while scenario == 'other-x' and (len(d['x'][0]) != len(c['x'][0])):
+        d = gen_krig(rng)
+    c['x2'] = d['x']
+    if scenario == 'same-x-other-y':
+        c['y2'] = [[pj(fj(v) * 2 + Fr(rng.randrange(-12, 13), 4)) for v in r] for r in c['y']]
+    else:
+        c['y2'] = d['y']
+    return c
 
 
 def gen_krig(rng):
@@ -87,15 +101,23 @@ class C28(Spec):
     impl_jobs = 4
     rule = ('random training sets (dimension 1-3, size from under-determined to over-determined, dyadic coordinates, '
             'distinct points), quadratic and random responses; ResponseSurface, NearestNeighbor linear/weighted/rbf, '
-            'Kriging with zero nugget, MetaModelUnStructuredComp with each of them; queries at training inputs and '
+            '(rbf: every rbf_family -3..4 x 1,2,3,4,6 inputs), Kriging with zero nugget incl. training_cache histories '
+            '(second training against the cache of the first: same x / other y, other x, same both), '
+            'MetaModelUnStructuredComp with each of them; queries at training inputs and '
             'at random points; every case distinct')
 
     def gen(self, tier, rng):
         k = 1 if tier == 'quick' else 10
         cases = [gen_rs(rng) for _ in range(500 * k)]
         for typ in ('weighted', 'linear', 'rbf'):
-            cases += [gen_nn(rng, typ) for _ in range((300 if typ == 'weighted' else 120) * k)]
-        cases += [gen_krig(rng) for _ in range(90 * k)]
+            cases += [gen_nn(rng, typ) for _ in range((300 if typ == 'weighted' else 100) * k)]
+        # every rbf_family x every dimension class of the Wendland tables (dims = n+1 <= 2, <= 4, <= 6, > 6)
+        for fam in (-3, -2, -1, 0, 1, 2, 3, 4):
+            for n in (1, 1, 2, 3, 4, 6):
+                cases += [gen_nn(rng, 'rbf', fam, n) for _ in range(2 * k)]
+        cases += [gen_krig(rng) for _ in range(80 * k)]
+        for sc in ('same-x-other-y', 'other-x', 'same-x-same-y'):
+            cases += [gen_krig_cache(rng, sc) for _ in range((10 if sc == 'same-x-other-y' else 5) * k)]
         for sur in ('rs', 'weighted', 'linear', 'rbf', 'krig'):
             cases += [gen_mm(rng, sur) for _ in range((25 if sur != 'krig' else 12) * k)]
         return cases
